@@ -166,6 +166,7 @@ def monitors(cfg, obs_list):
         n = len(o.txs)
         if n > R + 1:
             out.append(('C04', 'tx<=R+1', f'{n} transmissions', i))
+            out.append(('C05', 'tx<=R+1', f'{n} transmissions: more than the configured retry budget', i))
         # completion bound
         last, bound = o.t0, T
         for e in o.events:
